@@ -15,6 +15,8 @@ def client_mir(name, actions):
        ('check_slot', j)             check(m_j)
        ('free_given', ko, ks, j)     release(j); dealloc(_ko, _ks)  - a range the thread holds from the start (slot j, j < number of given slots)
        ('touch_given', ko, ks)       write the pattern into the given range [_ko, _ko+_ks)
+       ('drop_arena',)               drop this thread's arena value (Drop for sync::Arena: refs.fetch_sub, unmount by the last one)
+       ('clone_drop',)               clone the arena and drop the clone
        ('discard',)                  discard_freelist_in()
     Arguments: _1 = &Arena, _2.._5 = u32 parameters, _6 = u8 pattern. Slots: given ranges first, then allocations in order."""
     L = []
@@ -92,6 +94,17 @@ def client_mir(name, actions):
             u1 = newl()
             b = len(bbs)
             close("_%d = client::fill_range(copy _%d, copy _%d, copy _6) -> [return: bb%d, unwind continue];" % (u1, a[1], a[2], b + 1))
+        elif a[0] == "drop_arena":
+            # the thread drops its arena value (every concurrent thread holds one; refs starts at their number)
+            u1 = newl()
+            b = len(bbs)
+            close("_%d = <sync::Arena as Drop>::drop(copy _1) -> [return: bb%d, unwind continue];" % (u1, b + 1))
+        elif a[0] == "clone_drop":
+            c1, r1, u1 = newl(), newl(), newl()
+            b = len(bbs)
+            close("_%d = <sync::Arena as Clone>::clone(copy _1) -> [return: bb%d, unwind continue];" % (c1, b + 1))
+            cur.append("_%d = &mut _%d;" % (r1, c1))
+            close("_%d = <sync::Arena as Drop>::drop(copy _%d) -> [return: bb%d, unwind continue];" % (u1, r1, b + 2))
         elif a[0] == "discard":
             u1 = newl()
             b = len(bbs)
@@ -199,6 +212,10 @@ class World:
         return t
 
     # ------------------------------------------------------------ initial states
+    def init_refs(self, M, n):
+        """the reference counter (the extra word after the arena bytes) starts at the number of live arena values"""
+        return [M.W[0][M.NW - 1] == bv(n, 64)]
+
     def init_fresh(self, M, min_seg=20):
         """the image Memory::alloc / map_mut(create) writes (unified layout): zeroes, the 8 identification bytes, the header"""
         c = []
